@@ -295,7 +295,13 @@ class Env:
         from redress.classify import Classification
 
         if ra is not None and ra >= 0:
-            return Classification(klass=self._ec(k), retry_after_s=ra * vtime.TICK)
+            # an int hint (0 is falsy) is as good as a float one
+            hint = ra * vtime.TICK
+            if self.flavours and hint == int(hint):
+                hint = int(hint)
+            return Classification(klass=self._ec(k), retry_after_s=hint)
+        if self.flavours and self.ninv % 2 == 0:
+            return Classification(klass=self._ec(k))       # instead of the bare ErrorClass
         return self._ec(k)
 
     def classifier(self, exc: BaseException):
@@ -332,7 +338,10 @@ class Env:
         ret = (sc or {}).get("ret") or {"kind": "val", "v": 0}
         kind = ret["kind"]
         if kind == "val":
-            return ret["v"] * vtime.TICK
+            v = ret["v"] * vtime.TICK
+            if self.flavours and v == int(v):
+                return int(v)                  # strategies may return ints (0 is falsy)
+            return v
         return {"nan": math.nan, "pinf": math.inf, "ninf": -math.inf}[kind]
 
     def make_strategy(self, which: str):
@@ -378,6 +387,8 @@ class Env:
         sc = self._next("poll")
         ans = bool(sc["ans"]) if sc else False
         self.trace.append({"e": "poll", "ans": ans, "t": self.now()})
+        if self.flavours:
+            return ("abort requested" if ans else "")       # truthy / falsy, not a bool
         return ans
 
     def handler(self, ctx, sleep_s):
@@ -631,6 +642,12 @@ def retry_kwargs(env: Env, cfg: dict, *, place: str = "call", atimeout: bool = F
         budget=env.make_budget(cfg["budget"], cfg.get("bW", 100000)) if cfg["budget"] != NONE else None,
     )
     _ = EC
+    if env.flavours:
+        # any Mapping will do for the two tables
+        from types import MappingProxyType
+        for key in ("strategies", "per_class_max_attempts"):
+            if isinstance(ctor[key], dict):
+                ctor[key] = MappingProxyType(ctor[key])
     if atimeout:
         ctor["attempt_timeout_s"] = 500.0        # never fires: operations finish at once
     call: dict[str, Any] = dict(
